@@ -9,6 +9,8 @@ import Dmn.Model.DecSpec
   integer scale) → `(op R F S)`: `R` the model of the `dec_*` function (`dec.rs`), `F` the model
   of the `FeelNumber` method/operator (`number.rs`; `(none)` for `None`), `S` the specification's
   verdict on `R` (`true`/`false`/`na`);
+* `(c02 judgev <name> A [B] R)` → `(judge S)`: the same for a reduced (`FeelNumber`-level) result:
+  some representation of the value of `R` meets the specification;
 * `(c02 judge <name> A [B] R)` → `(judge S)`: the specification applied to a given result;
 * `(c02 feel <name> X [Y])` with operands that may be special → `(feel F)`: `FeelNumber`
   operators on values that may already be infinite / NaN;
@@ -107,6 +109,21 @@ def judge (name : String) (a : D128) (b : Option D128) (k : Option Int) (r : D12
     | _ => some false
   | _, _, _ => none
 
+/-- representations of the value of `d` with up to 34 digits (a `FeelNumber` result is reduced,
+the specifications speak about the unreduced `decQuad` result) -/
+def unreductions (d : D128) : List D128 :=
+  (List.range 35).filterMap fun (j : Nat) =>
+    if d.coeff * 10 ^ j < 10 ^ 34 ∨ j = 0 then some ⟨d.neg, d.coeff * 10 ^ j, d.exp - (j : Int)⟩ else none
+
+/-- the specification applied to a `FeelNumber`-level result: some representation of its value
+meets the specification of the operation -/
+def judgeV (name : String) (a : D128) (b : Option D128) (k : Option Int) (r : D128R) : Option Bool :=
+  match r with
+  | .fin d =>
+    let rs := (unreductions d).map (fun d' => judge name a b k (.fin d'))
+    if rs.any (· == none) then none else some (rs.any (· == some true))
+  | _ => judge name a b k r
+
 def feelOp (name : String) (x : D128R) (y : Option D128R) (k : Option Int) : Option String :=
   match name, y, k with
   | "add", some y, _ => some (showR (FNum.add x y))
@@ -152,6 +169,25 @@ def handle (args : List Sexp) : String :=
       | some (r, f, s) => s!"(op {r} {f} {s})"
       | none => "(error unknown-op)"
     | none => "(error bad-operand)"
+  | [.atom "judgev", .atom name, a, r] =>
+    match dec? a, decR? r with
+    | some a, some r =>
+      match judgeV name a none none r with
+      | some v => s!"(judge {boolStr v})"
+      | none => "(judge na)"
+    | _, _ => "(error bad-operand)"
+  | [.atom "judgev", .atom name, a, b, r] =>
+    match dec? a, decR? r with
+    | some a, some r =>
+      let v := match dec? b with
+        | some b => judgeV name a (some b) none r
+        | none => match Sexp.int? b with
+          | some k => judgeV name a none (some k) r
+          | none => none
+      match v with
+      | some v => s!"(judge {boolStr v})"
+      | none => "(judge na)"
+    | _, _ => "(error bad-operand)"
   | [.atom "judge", .atom name, a, r] =>
     match dec? a, decR? r with
     | some a, some r =>
